@@ -29,8 +29,13 @@ GRIDS_QUICK = [
     (dict(x=(0, 2), y=(0, 2)), 'all-care-hint', 70),
     (dict(x=(0, 3), y=(-2, 1)), 'random-care', 40),
     (dict(x=(-4, -1), y=(0, 1), z=(0, 1)), 'random-care', 30),
+    (dict(x=(0, 4), y=(0, 2)), 'hint-narrow', 60),
+    (dict(x=(-3, 1)), 'hint-narrow', 40),
+    (dict(x=(0, 1), y=(0, 1), z=(0, 1), w=(0, 2)), 'random-care', 24),
 ]
 GRIDS_THOROUGH = [
+    (dict(x=(0, 4), y=(0, 2)), 'hint-narrow', 600),
+    (dict(x=(-5, -2), y=(1, 2)), 'hint-narrow', 300),
     (dict(x=(0, 1), y=(0, 1), z=(0, 1), w=(0, 1)), 'all-care-hint', 3000),
     (dict(x=(0, 2), y=(0, 2)), 'all-care-hint', 0),
     (dict(x=(0, 3), y=(-2, 1)), 'random-care', 600),
@@ -69,4 +74,4 @@ def _part(decl, mode, seed, n, be, part, parts):
 
 
 def coverage_extra(results):
-    return dict(bounded_parameters=dict(instances='exhaustive: all subsets of the 2x2 and 2x2x2 hinted grids; sampled: 3x3 grid, 4x4 and mixed-sign grids with random care sets (VERIF_SEED)'))
+    return dict(bounded_parameters=dict(instances='exhaustive: all subsets of the 2x2 and 2x2x2 hinted grids; sampled: 3x3 grid, 4x4 and mixed-sign grids with random care sets, hints narrower than the bit ranges with predicates outside the hints and predicates covering the care set, a 4-variable grid (VERIF_SEED)'))
